@@ -341,7 +341,7 @@ func (c *Ctx) flush(done bool) {
 // 3 no-progress watchdog fired (current case written to hang file).
 func RunWorker(p *Prop, tier string, seed int64, shard, nshards int, outdir string) int {
 	c := newCtx(p, tier, seed, shard, nshards, outdir)
-	hang := 180
+	hang := 90
 	if p.HangSecs > 0 {
 		hang = p.HangSecs
 	}
